@@ -1,0 +1,49 @@
+//go:build verif
+
+// Verification hooks (add-only, compiled only with -tags verif).
+// The write function of KafkaWriter is an unexported field; runtime monitors
+// need to observe the batches handed to the broker, so this file exports a
+// constructor that is the production constructor plus an injected sink.
+
+package event
+
+import (
+	"context"
+
+	"github.com/AliceO2Group/Control/common/ecsmetrics"
+	"github.com/AliceO2Group/Control/common/event/topic"
+	"github.com/AliceO2Group/Control/common/monitoring"
+	"github.com/segmentio/kafka-go"
+)
+
+// VerifNewWriter returns a KafkaWriter built by NewWriterWithTopic itself (same
+// channel capacity, same FIFO, same two worker goroutines), whose batches go to
+// writeFn instead of kafka.Writer.WriteMessages. The wrapper around writeFn is
+// the same as the production one (timer metric, failed-messages accounting).
+//
+// The callback is replaced before the writer is handed to the caller, i.e.
+// before any message can exist: the writing loop reads the field only after it
+// popped a message, which happens-after the publishing WriteEvent call, which
+// happens-after this function returned.
+func VerifNewWriter(topicName string, writeFn func(ctx context.Context, msgs ...kafka.Message) error) *KafkaWriter {
+	writer := NewWriterWithTopic(topic.Topic(topicName))
+	writer.writeFunction = func(messages []kafka.Message, metric *monitoring.Metric) {
+		defer ecsmetrics.TimerNS(metric)()
+		if err := writeFn(context.Background(), messages...); err != nil {
+			metric.AddValue("messages_failed", len(messages))
+			log.Errorf("failed to write %d messages to kafka with error: %v", len(messages), err)
+		}
+	}
+	return writer
+}
+
+// VerifQueued reports how many messages currently sit in the producer channel
+// and in the FIFO buffer (observation only; used for coverage counters).
+func (w *KafkaWriter) VerifQueued() (inChannel int, inFifo int) {
+	return len(w.toBatchMessagesChan), w.messageBuffer.Length()
+}
+
+// VerifChannelCap reports the capacity of the producer channel.
+func (w *KafkaWriter) VerifChannelCap() int {
+	return cap(w.toBatchMessagesChan)
+}
